@@ -143,9 +143,11 @@ func (k Keeper) handleDoubleSign(ctx sdk.Ctx, addr crypto.Address, infractionHei
 	if !found {
 		panic(types.ErrNoValidatorFound(k.codespace))
 	}
-	err = k.ForceValidatorUnstake(ctx, v)
-	if err != nil {
-		panic(err)
+	if !v.IsUnstaked() { // the slash above already forces the unstake when it leaves less than the minimum
+		err = k.ForceValidatorUnstake(ctx, v)
+		if err != nil {
+			panic(err)
+		}
 	}
 	// Set tombstoned to be true
 	signInfo.Tombstoned = true
